@@ -488,3 +488,12 @@ Proof. exact f53_unique_refuted. Qed.
 (* ... hence the hypothesis with NO built-in excluded is false: the exclusion in biok_full is exact *)
 Lemma C05_all_builtins_unrestricted_refuted : ~ all_builtins_rel_unrestricted.
 Proof. exact all_builtins_rel_unrestricted_refuted. Qed.
+
+(* The exclusion is exact with respect to the CODE as well: the built-ins excluded from [biok_full] are exactly the arms
+   of BuiltInFunction::call whose source text applies Value::equals (coq/gen/ArmObservers.v, regenerated from
+   blots-core/src/functions.rs on every run; exhaustive over the regenerated built-in table). *)
+Require Import Blots.gen.ArmObservers.
+Theorem C05_equality_exclusion_matches_source : forall b, biok_full b = negb (src_applies_equals b).
+Proof. destruct b; reflexivity. Qed.
+Check C05_equality_exclusion_matches_source : forall b, biok_full b = negb (src_applies_equals b).
+Print Assumptions C05_equality_exclusion_matches_source.
